@@ -2,7 +2,7 @@
    confinement, C15 layout independence) lifted through the wiring of server.rs. *)
 From Coq Require Import Lia.
 From Hv Require Import Prelude Bytes TablesHttp TablesConfig Http Krauss KraussProofs Routing RoutingProofs
-  Blacklist BlacklistProofs StaticFs StaticFsProofs Config Server.
+  Blacklist BlacklistProofs StaticFs StaticFsProofs Config Proxy HttpReqSpec HttpReqProofs ProxyReqProofs Server.
 Open Scope N_scope.
 
 Section ServerProofs.
@@ -264,6 +264,62 @@ Section ServerProofs.
     - discriminate.
     - change (RT_Directory =? RT_File) with false in H. rewrite N.eqb_refl in H. cbv iota in H. rewrite Hd in H.
       injection H as H. eapply directory_handler_confined; eassumption.
+  Qed.
+
+  (* ---- C09 through the server: a proxied request is one the routing rule gave to a proxy route, and what that route's
+     target receives is the request itself, prefix stripped, plus the origin address ---- *)
+  Lemma ws_not_proxy c v req ts m mt : ws_response c v req <> SProxy ts m mt.
+  Proof.
+    unfold ws_response. destruct (get_handler _ _ _ _); [|discriminate].
+    destruct (ws_handler_ids c _) as [[h j]|]; [|discriminate].
+    destruct v; try discriminate; destruct (get_route c h j) as [rt|]; try discriminate; destruct (rt_ws rt); discriminate.
+  Qed.
+
+  Theorem server_proxied_by_rule (c : config) p req ts m mt :
+    response c p req = SProxy ts m mt ->
+    exists ch rt,
+      Routes (map subapp_of (cf_hosts c)) (subapp_of (cf_default_host c))
+             (option_map scalars (hget (HKnown H_Host) (r_headers req))) (scalars (r_uri req)) (Some ch) /\
+      get_route c (fst (handler_ids ch)) (snd (handler_ids ch)) = Some rt /\
+      rt_type rt = RT_Proxy /\ rt_matches rt = mt /\ rt_lb rt = Some (ts, m) /\
+      Blacklist.serve ipp (cf_bl_mode c =? BLOCK_MODE) (cf_bl_list c) p (r_headers req) = Served.
+  Proof.
+    unfold server_response. intro H.
+    destruct (Blacklist.serve ipp _ _ p _) eqn:V; [discriminate| |].
+    all: destruct (is_upgrade req); [exfalso; eapply ws_not_proxy; exact H|].
+    all: destruct (get_handler _ _ _ _) as [ch|] eqn:G; [|discriminate].
+    all: destruct (handler_ids ch) as [h j] eqn:Hid; destruct (get_route c h j) as [rt|] eqn:GR; [|discriminate].
+    all: unfold dispatch in H; destruct (rt_type rt =? RT_ExclusiveWebSocket); [discriminate|]; try discriminate.
+    exists ch, rt. rewrite Hid. cbn [fst snd].
+    split; [rewrite <- G; apply get_handler_spec|]. split; [exact GR|].
+    destruct (rt_type rt =? RT_File); [destruct (rt_path rt); discriminate|].
+    destruct (rt_type rt =? RT_Directory); [destruct (rt_path rt); discriminate|].
+    destruct (rt_type rt =? RT_Redirect); [destruct (rt_path rt); discriminate|].
+    destruct (rt_type rt =? RT_Proxy) eqn:T; [|discriminate].
+    destruct (rt_lb rt) as [[ts' m']|]; [|discriminate]. injection H as <- <- <-.
+    apply N.eqb_eq in T. repeat split; try reflexivity; exact T.
+  Qed.
+
+  Theorem server_upstream_sees (c : config) p p' req ts m mt uri' :
+    parsed_ok ipp p req -> response c p req = SProxy ts m mt ->
+    rewrite_uri mt (r_uri req) = Some uri' -> ip_text_ok (a_origin (r_addr req)) ->
+    exists b r', forwarded_bytes ipp fs c p req = Some b /\
+      parse_request_flat ipp p' b = Ok (r', []) /\
+      r_method r' = r_method req /\ r_uri r' = uri' /\ r_query r' = r_query req /\ r_version r' = r_version req /\
+      r_content r' = r_content req /\
+      (forall n, hget_all n (r_headers r') = hget_all n (r_headers req ++ [(XFF, a_origin (r_addr req))])).
+  Proof.
+    intros P H R I. destruct (upstream_sees_fields ipp p p' req mt uri' P R I) as (r' & E & F).
+    exists (upstream_bytes req uri'), r'. split; [|split; [exact E|exact F]].
+    unfold forwarded_bytes. rewrite H, R. reflexivity.
+  Qed.
+
+  (* nothing is forwarded for a request that is not answered by a proxy route: in particular nothing for a blacklisted
+     client, whatever the route *)
+  Theorem server_forwards_only_proxied (c : config) p req b :
+    forwarded_bytes ipp fs c p req = Some b -> exists ts m mt, response c p req = SProxy ts m mt.
+  Proof.
+    unfold forwarded_bytes. destruct (response c p req) eqn:E; try discriminate. intros _. eauto.
   Qed.
 End ServerProofs.
 
